@@ -264,7 +264,9 @@ declarations:
 """
 MEMBER_CONTAINERS = {"library": (), "class": ("declarations", 0), "block-in-class": ("declarations", 0, "declarations", 4), "namespace": ("declarations", 1),
                      "class-in-namespace": ("declarations", 1, "declarations", 0)}
-MEMBER_SETTINGS = [("PY_array_arg", "list"), ("PY_member_getter_template", "{PY_prefix}{cxx_class}_{variable_name}_zget"),
+MEMBER_SETTINGS = [("C_name_template", "{C_prefix}zz_{C_name_scope}{underscore_name}{function_suffix}{template_suffix}"), ("F_force_wrapper", True),
+                   ("F_C_name_template", "{F_C_prefix}zz_{F_name_scope}{underscore_name}{function_suffix}{template_suffix}"), ("wrap_fortran", False),
+                   ("PY_array_arg", "list"), ("PY_member_getter_template", "{PY_prefix}{cxx_class}_{variable_name}_zget"),
                    ("PY_member_setter_template", "{PY_prefix}{cxx_class}_{variable_name}_zset"), ("debug", True)]
 # (1h) a struct and the functions that take it: PY_struct_arg stated on the library == stated on the struct and on every function
 STRUCT_ARG_BASE = """\
@@ -605,9 +607,11 @@ def run(ctx):
     mbase = yaml.safe_load(MEMBER_BASE)
     for oname, oval in MEMBER_SETTINGS:
         for container in MEMBER_CONTAINERS:
+            if oname == "wrap_fortran" and container != "block-in-class":
+                continue  # a class, a namespace and the library have Fortran entities of their own (type, module, file)
             a, b = placement_pair(mbase, "options", oname, oval, container, MEMBER_CONTAINERS)
             add(("placement", "options", oname, "member-" + container), a, b, comment_only=oname in COMMENT_ONLY)
-            if oname != "debug":
+            if oname not in ("debug", "F_force_wrapper"):  # accessors always have a wrapper: forcing one changes nothing
                 k[0] += 1
                 jobs.append((os.path.join(wd, "j%d" % k[0]), ("enum-setting-acts", oname, oval, "member-" + container), a, mbase, [], [], False, None, "differ"))
     abase = yaml.safe_load(ARANK_BASE)
